@@ -24,6 +24,7 @@ RULE = ('random programs of 1-5 operations from {copy, slice (int/slice/list '
         'of (operation, input digest).')
 RULE += (" save(format='ioapi') is a legal query step inside a program (the next file built must not inherit anything); programs stop after apply over TSTEP (time metadata is then the caller's).")
 RULE += (' A share of the gridded files is the IOAPI-class object the CAMx gridded READER (uamiv) returns for an image written by the independent codec (whole-hour steps up to 168 h, ETFLAG present, header completed by the class).')
+RULE += (" Writer case (one gridded case in five with >= 2 steps): the same IOAPI content saved, opened as a plain netCDF file (no format named), cut to its later steps with the generic slice and written through the 'ioapi' writer; the written file must be coherent, decode to the kept steps, and close its last interval with the step it states. Files from the CAMx reader include surface files with nz = 0 in the grid header.")
 ASSUMPTIONS = [
     'a file with zero listed variables may keep VAR/TFLAG second axis of '
     'length 1 (the convention cannot express an empty axis)',
@@ -162,3 +163,63 @@ def run(spec, res):
 
         ops.run_program(f, spec['prog_seed'], spec['nops'], allowed=ALLOWED,
                         on_step=on_step)
+        if spec['prog_seed'] % 5 == 2 and spec['file']['kind'] == 'grid' \
+                and spec['file']['nt'] >= 2 and not spec.get('disk') and \
+                spec['file'].get('via') != 'uamiv':
+            writer_case(spec, res, d, h)
+
+
+def writer_case(spec, res, d, h):
+    """the same IOAPI content handled as a plain netCDF file (no format
+    named), cut in time with the generic slice, and written through the
+    'ioapi' writer: what the writer produces is an IOAPI file and must be
+    coherent"""
+    import os
+    import PseudoNetCDF as pnc
+    f = gen_ioapi.build(spec['file'])
+    k = 1 + spec['prog_seed'] % max(1, spec['file']['nt'] - 1)
+    try:
+        p1 = os.path.join(d, 'plain.nc')
+        h.keep(f.save(p1, format='NETCDF4_CLASSIC', verbose=0)).close()
+        g = h.keep(pnc.pncopen(p1, format='netcdf'))
+        cut = g.sliceDimensions(TSTEP=slice(k, None))
+        p2 = os.path.join(d, 'written.ioapi.nc')
+        o = cut.save(p2, format='ioapi', verbose=0)
+        h.keep(o)
+        o.close()
+        w = h.keep(pnc.pncopen(p2, format='ioapi'))
+    except Exception as e:
+        res.ev(digest(['writer', spec['file'], k]), True, 'writer-raised')
+        res.viol('writer-raised:%s' % type(e).__name__,
+                 "IOAPI content opened as plain netCDF, steps %d.. of %d "
+                 "kept, save(format='ioapi') raised %r"
+                 % (k, spec['file']['nt'], e), excmsg=str(e)[:200],
+                 kept=spec['file']['nt'] - k)
+        return
+    res.hook('coherent.eval')
+    res.facet('writer:plain-source-time-window')
+    bad = gen_ioapi.coherent(w)
+    exp = gen_ioapi.expected_times(spec['file'])[k:]
+    try:
+        got = [tuple(t.timetuple()[:6]) for t in w.getTimes()]
+        if got != exp:
+            bad.append('written file decodes to %s, the kept steps are %s'
+                       % (got[:2], exp[:2]))
+        if len(exp) >= 2:
+            # the step the writer states closes the last interval
+            gb = [tuple(t.timetuple()[:6]) for t in w.getTimes(bounds=True)]
+            eb = gen_ioapi.expected_times(spec['file'],
+                                          n=spec['file']['nt'] + 1)[k:]
+            if gb != eb:
+                bad.append('written file: edges %s, the kept steps and '
+                           'their step (TSTEP %d) say %s; the file states '
+                           'TSTEP %r' % (gb[-2:], spec['file']['tstep'],
+                                         eb[-2:], getattr(w, 'TSTEP', None)))
+    except Exception as e:
+        bad.append('getTimes on the written file raised %r' % (e,))
+    res.ev(digest(['writer', spec['file'], k]), True, 'writer')
+    if bad:
+        res.viol('writer-incoherent',
+                 "IOAPI content opened as plain netCDF, steps %d.. kept, "
+                 "save(format='ioapi'): %s" % (k, '; '.join(bad[:5])),
+                 problems=bad[:8])
